@@ -335,6 +335,17 @@ pub fn one_program<F>(
         } else {
             bump(&mut rep.hist, "c03.ops_reject", 1);
         }
+        // adversarial variant: an operand slot that no op (and no input) defines is the prover's to
+        // choose. If the emitted ops accept such an assignment and it violates a source relation,
+        // the compiled ops do not imply the source (e.g. a stale, un-rewritten slot reference).
+        if let Some(w_free) = crate::prog::ops_only_assignment_full(&circuit, &pubs, &priv_slots, false, false, true) {
+            if ops_sat_full(&circuit, &w_free, &pubs) {
+                if let Some((ci, line)) = source_violation(&prog.calls, &prog.rets, &circuit, &w_free, &pubs, &privs) {
+                    rep.violations.push(json!({"property":"C03","kind":"ops-accept-assignment-violating-source",
+                        "class":"unconstrained-operand", "call_index": ci, "call": line, "replay": replay}));
+                }
+            }
+        }
         // adversarial variant: the product slot of a fused MulAdd is constrained by no row. Give
         // it a wrong value; if the emitted ops still accept, *repair* the product slots (the
         // `w'` of theorem `fusion_check_sound`): if the repaired assignment is rejected by an
